@@ -188,6 +188,8 @@ class WriterRun:
         st.ghost[w] = "dirty"
 
     def on_call(self, call):
+        if getattr(self, "extra_on_call", None) is not None:
+            self.extra_on_call(call)
         nm = call.name or ""
         st = call.st
         if not nm.startswith(WRITER + "::") and not nm.startswith("tag_writer::size_as_vint"):
